@@ -38,7 +38,7 @@ def tla_consts(c, maxpolls=None):
     return {
         "Writers": set(c["writers"].keys()),
         "Prog": {w: [o[0] if o[0] != "WW" else "W1" for o in ops] for w, ops in c["writers"].items()},
-        "CtxOf": {w: [o[1] for o in ops] for w, ops in c["writers"].items()},
+        "CtxOf": {w: [("bg" if o[1] == "far" else o[1]) for o in ops] for w, ops in c["writers"].items()},
         "Closers": set(c["closers"].keys()),
         "CloseArg": dict(c["closers"]),
         "SenderIds": senders(c),
